@@ -564,7 +564,9 @@ func (ex *Exec) execReturn(s *ast.ReturnStmt) {
 	if ex.st.dead {
 		return
 	}
-	fr.exits = append(fr.exits, ex.st.clone())
+	xs := ex.st.clone()
+	xs.retPos = s.Pos()
+	fr.exits = append(fr.exits, xs)
 	ex.st.dead = true
 	ex.st.pc = False
 }
